@@ -371,8 +371,8 @@ static const int kFixed = 2;   // case 0: probes + ctor, case 1: fixed histories
 
 long verif::verif_ncases(const std::string & tier) {
     if (tier == "thorough") build_spaces(2, 4, 4); else build_spaces(2, 3, 3);
-    g_perShape = tier == "thorough" ? 30 : 40;
-    g_random = tier == "thorough" ? 900 : 90;     // larger random shapes: 2..6 factors of sizes 1..5
+    g_perShape = tier == "thorough" ? 60 : 120;
+    g_random = tier == "thorough" ? 2000 : 300;    // larger random shapes: 2..6 factors of sizes 1..5
     run_probes();
     return kFixed + (long)g_spaces.size() * g_perShape + g_random;
 }
